@@ -187,6 +187,11 @@ func driveC06(c *h.Ctx) error {
 				c06CheckTypes(c, o2, nj)
 				rb, _ := safeMarshal(o2)
 				obs = "OOk " + h.HexBytes(rb)
+				// an accepted input re-encodes to itself (the unpatched message does): if not, the value was built
+				// from a structure that is not the one its type names (an object of another type taken for this one)
+				if !bytes.Equal(rb, pb) {
+					c.Fail("C06/object-of-another-type-accepted", fmt.Sprintf("with the object type patched to 0x%X the message is accepted, but what was decoded re-encodes to other bytes (%d vs %d, first difference at %d): the object structure on the wire was taken for a structure of the announced type", code, len(rb), len(pb), c04FirstDiff(rb, pb)), nj)
+				}
 			}
 			rowsDec = append(rowsDec, fmt.Sprintf("(%q, %s, %s)", root, h.HexBytes(pb), obs))
 			c.IndexCase("mism_dec", len(rowsDec)-1, nj)
